@@ -96,7 +96,8 @@ type implOutcome struct {
 
 type evalRig struct {
 	ntTraceOnly bool
-	farDeadline bool // evaluate under a context whose deadline is an hour away (nothing times out)
+	farDeadline bool // evaluate under a context whose deadline is far away (nothing times out)
+	deadlineAt  time.Time // that deadline (zero: an hour from now)
 	base   types.EnvType
 	tracer *lx.Tracer
 	mbase  *model.Scope
@@ -121,7 +122,11 @@ func (rg *evalRig) runImpl(ast types.MalType, polls int) (out implOutcome, scope
 	scope = env.NewSubordinateEnv(rg.base)
 	ctx := vclock.NewPollCtx(polls)
 	if rg.farDeadline {
-		ctx = ctx.WithDeadline(time.Now().Add(time.Hour))
+		d := rg.deadlineAt
+		if d.IsZero() {
+			d = time.Now().Add(time.Hour)
+		}
+		ctx = ctx.WithDeadline(d)
 	}
 	res, err, p := lx.Eval(ctx, ast, scope)
 	out.Trace = make([]V, len(rg.tracer.Log))
@@ -418,7 +423,7 @@ func init() {
 		}
 		scoping := &vf.Family{
 			Name:   "scoping",
-			Bounds: "all programs of weight <=9 (quick) / <=10 (thorough) over leaves {x, y, 1, 2} and only scope-forming constructs (let x, let y, zero-parameter closure, call of it, one-parameter fn applied in place), plus weight <=7 / <=9 with list, if and (do (def x ..) ..) added: closures made in one scope, shadowed later in tail position, then called",
+			Bounds: "all programs of weight <=9 (quick) / <=10 (thorough) over leaves {x, y, 1, 2} and only scope-forming constructs (let x, let y, zero-parameter closure, call of it, one-parameter fn applied in place), plus weight <=7 / <=9 with list, if, (do (def x ..) ..), (apply f (list)) and a zero-parameter closure whose body is (def x ..) added: closures made in one scope, shadowed later in tail position, then called",
 			Setup:  func(t string) { tier = t; setup(t) },
 			N:      func(t string) int64 { tier = t; a, b := scopeN(); return a + b },
 			Describe: func(i int64) string { return scopeProg(i).Lisp() },
